@@ -2,11 +2,16 @@
 # pkg: 'world' (module /verif/sim) or the name of a directory under /verif/inpkg
 # ('root' = package quic, 'a__b' = /repo/a/b).
 
+import os, json, glob
+
 TEST = 'TestVerifSim'
 
-SIMS = {
-    'sph': {'pkg': 'internal__ackhandler', 'test': TEST},
-}
+# one descriptor per engine: lib/sims.d/<sim>.json = {"pkg", "files", "serves", "about"}
+SIMS = {}
+for _p in sorted(glob.glob(os.path.join(os.path.dirname(os.path.abspath(__file__)), 'sims.d', '*.json'))):
+    _d = json.load(open(_p))
+    _d['test'] = TEST
+    SIMS[os.path.basename(_p)[:-5]] = _d
 
 PROPS = {
     'C06': {
@@ -29,7 +34,5 @@ NOT_APPLICABLE = {
     'C19': 'predicate over field lists and http.Header values (quantifier: inputs only): no schedule, clock, fault or interleaving - DESIGN.md section 5',
 }
 
-ENGINES = [
-    {'name': 'K:sph', 'path': 'inpkg/internal__ackhandler/zz_sph_test.go', 'serves_properties': ['C06', 'C14', 'C20'],
-     'kind_free_text': 'component simulation: real sentPacketHandler vs reference model, seeded histories'},
-]
+ENGINES = [{'name': k, 'path': ('sim/' if v['pkg'] == 'world' else 'inpkg/%s/' % v['pkg']) + ','.join(v.get('files', [])),
+            'serves_properties': v.get('serves', []), 'kind_free_text': v.get('about', '')} for k, v in sorted(SIMS.items())]
